@@ -1,0 +1,16 @@
+//! Address of an `IdentifierRef`. Compiled only under `--cfg brood_verif`.
+
+use crate::{
+    archetype::IdentifierRef,
+    registry::Registry,
+};
+
+impl<R> IdentifierRef<R>
+where
+    R: Registry,
+{
+    /// The address this reference points at. The pointee is not read.
+    pub(crate) fn verif_pointer(self) -> *const u8 {
+        self.pointer
+    }
+}
